@@ -188,6 +188,18 @@ class Mod(object):
                 self.features.add('docstring_with_2plus_blocks')
         if layout in ('freeform', 'mixed'):
             for b in range(D.int(1, 2)):
+                if getattr(self, 'disabled_blocks', False) and D.chance(1, 3):
+                    # a block under a freeform skip word: its prompts belong to no doctest, its lines still count
+                    self.add('')
+                    self.add('{}{}'.format(ind, D.choice(['DisableDoctest:', 'Ignore:', 'Script:', 'SkipDoctest:', 'Benchmark:'])))
+                    k = self.tok()
+                    self.add('{}    >>> d{} = {}'.format(ind, k, k))
+                    for j in range(D.int(0, 2)):
+                        self.add("{}    >>> print('disabled {} {}')".format(ind, k, j))
+                        self.add('{}    not the output'.format(ind))
+                        self.add('{}    >>> e{}{} = ['.format(ind, k, j))
+                        self.add('{}    ...     1]'.format(ind))
+                    self.features.add('freeform_disabled_block')
                 self.add('')
                 self.add('{}Some prose before a group.'.format(ind))
                 if D.bool():
@@ -361,9 +373,10 @@ class ImportedCls(object):
 '''
 
 
-def build_module(D, importable=True, fail_kinds=(None,), max_items=7, allow_async=True, helper=False):
+def build_module(D, importable=True, fail_kinds=(None,), max_items=7, allow_async=True, helper=False, disabled_blocks=False):
     m = Mod(D, importable, fail_kinds, allow_async)
     m.helper = helper
+    m.disabled_blocks = disabled_blocks
     if D.bool():
         m.emit_docstring('', '__doc__', layouts=['google', 'freeform', 'prose', 'mixed'])
         m.features.add('module_docstring')
